@@ -193,6 +193,7 @@ struct Transfer {
     int harmlessDups = 0;  // duplicated data blocks
     int otherOps = 0;      // anything else that is not an honest delivery (faults on <open/>/<close/>, injected stanzas)
     bool sawRSuccessWrong = false;
+    bool altered = false;  // a payload was altered in transit / a block was forged in the sender's name with its session id
     bool dupRefused = false;
     static int counter;
 
@@ -417,6 +418,7 @@ struct Transfer {
                     long b = bit % (8L * p.payload.size());
                     p.payload[int(b / 8)] = char(p.payload[int(b / 8)] ^ (1 << (b % 8)));
                     faults++;
+                    altered = true;
                 }
                 feed(toReceiver(p));
             }
@@ -439,6 +441,7 @@ struct Transfer {
             } else c.kind = Ibb::Close;
             feed(toReceiver(c));
             otherOps++;  // not one of the property's faults: only oracle 1 applies
+            if (c.sender == 0 && c.sid == 0 && c.kind == Ibb::Data) altered = true;
         }
         if (w != "deliver" && w != "inj" && faults + harmlessDups == faultsBefore) otherOps++;
         return observe();
@@ -479,7 +482,8 @@ static void judge(Transfer &t, const Case &c, const std::string &replay)
 {
     const long long blocks = c.bsS > 0 ? (c.data.size() + c.bsS - 1) / c.bsS : 0;
     if (t.sawRSuccessWrong) {
-        oracleFail(!c.hash ? "C19:nohash-altered-accepted" : "C19:success-with-different-bytes", replay);
+        // known limit: no hash announced AND the content was altered/forged indistinguishably for the receiver
+        oracleFail(!c.hash && t.altered ? "C19:nohash-altered-accepted" : "C19:success-with-different-bytes", replay);
         return;
     }
     if (t.faults == 0 && t.harmlessDups == 0 && t.otherOps == 0 && c.bsS <= c.bsR && c.bsS > 0) {
@@ -634,9 +638,9 @@ static void runSocks(const QByteArray &announced, bool withHash, bool withSize, 
     // oracle: success ⇒ identical bytes; honest ⇒ success; truncated/altered ⇒ not success (when the offer carried what is needed)
     QByteArray all; for (auto &c : chunks) all += c;
     const bool success = run.rj->state() == QXmppTransferJob::FinishedState && run.rj->error() == QXmppTransferJob::NoError;
-    if (success && run.recvBuf.data() != announced) oracleFail(withHash ? "C19:socks-success-with-different-bytes" : "C19:nohash-altered-accepted", label + " " + hist.substr(0, 400));
+    if (success && run.recvBuf.data() != announced) oracleFail("C19:socks-success-with-different-bytes", label + " " + hist.substr(0, 400));
     else if (!faulty && !success) oracleFail("C19:socks-honest-run-not-successful", label + " " + hist.substr(0, 400));
-    else if (faulty && success && withHash && withSize) oracleFail("C19:socks-fault-but-success", label + " " + hist.substr(0, 400));
+    else if (faulty && success) oracleFail("C19:socks-fault-but-success", label + " " + hist.substr(0, 400));
     else oraclePass()++;
     stat("socks_runs");
     delete run.rj;
@@ -693,13 +697,35 @@ int main(int argc, char **argv)
             }
         }
     }
+    // ---- 1b. exhaustive: every op sequence up to a depth over a 9-symbol alphabet on a 2-block file, then honest to the end
+    {
+        const std::vector<std::string> alpha = { "deliver", "drop", "dup", "swap", "flip 9", "eclose", "wsid", "wsender", "inj 0 0 data 1 ee" };
+        const int depth = thorough ? 4 : 3;
+        const QByteArray d = QByteArray::fromHex("a1b2c3");
+        for (int hash = 1; hash >= 0; hash--) {
+            std::vector<int> idx;
+            std::function<void()> rec = [&]() {
+                if (!idx.empty()) {
+                    Case c { 2, 4096, hash == 1, "hex", d, {} };
+                    for (int i : idx) c.ops.push_back(alpha[i]);
+                    runCase(c);
+                    stat("exhaustive_sequences");
+                }
+                if ((int)idx.size() == depth) return;
+                for (int i = 0; i < (int)alpha.size(); i++) { idx.push_back(i); rec(); idx.pop_back(); }
+            };
+            rec();
+        }
+        stat("exhaustive_depth", depth);
+        stat("exhaustive_alphabet", (long long)alpha.size());
+    }
     // ---- 2. block-size negotiation: the receiver refuses a larger block size than its own
     for (auto [bS, bR] : std::vector<std::pair<int, int>> { { 16, 8 }, { 8, 8 }, { 4096, 4095 }, { 1, 1 }, { 0, 16 } }) {
         runCase({ bS, bR, true, "rnd", makeContent("rnd", 20, rng), {} });
         stat("negotiation_cases");
     }
     // ---- 3. seeded random op sequences over the whole alphabet (several faults, foreign/forged stanzas)
-    const int nrand = thorough ? 6000 : 700;
+    const int nrand = thorough ? 40000 : 2500;
     for (int i = 0; i < nrand; i++) {
         const int b = std::vector<int> { 1, 2, 3, 5, 16 }[rng.below(5)];
         const long n = rng.below(4 * b + 3);
@@ -768,8 +794,10 @@ int main(int argc, char **argv)
                 // altered: one bit flipped, same length
                 QByteArray x = d; const long bit = rng.below(uint32_t(8 * n)); x[int(bit / 8)] = char(x[int(bit / 8)] ^ (1 << (bit % 8)));
                 if (hash) runSocks(d, true, true, { x }, true, "altered");
-                // too long
-                runSocks(d, hash, true, { d + QByteArray("Z") }, true, "overlong");
+                // too long: in one read (small sizes only: a large write may be split by TCP, and the code then finishes
+                // successfully after the first `size` bytes — which are the right ones) and as a separate trailing read
+                if (n <= 64) runSocks(d, hash, true, { d + QByteArray("Z") }, true, "overlong");
+                runSocks(d, hash, true, { d, QByteArray("Z") }, false, "trailing-bytes-after-complete-file");
             }
         }
         if (!socksAvailable) sample("SOCKS5: loopback TCP not available in this environment, path not exercised");
